@@ -5,7 +5,7 @@ CONSTANTS
   Vals = {1, 2}
   MaxDepth = 3
   NR = 1
-  NT = 2
+  NT = 1
   Writers = {1}
   ItThreads = {1}
   RdThreads = {}
